@@ -257,10 +257,111 @@ def special_cases(n, seed):
     return out
 
 
+# ------------------------------------------------------------------ end-to-end exactness against vertex enumeration
+
+def _polygon_vertices(G, h):
+    """vertices of {m in R^2 : G m <= h} (bounded), by intersecting pairs of constraint lines"""
+    V = []
+    for i in range(len(h)):
+        for j in range(i + 1, len(h)):
+            M = np.array([G[i], G[j]], dtype=float)
+            if abs(np.linalg.det(M)) < 1e-12:
+                continue
+            v = np.linalg.solve(M, np.array([h[i], h[j]], dtype=float))
+            if (G @ v <= h + 1e-9).all() and not any(np.allclose(v, w) for w in V):
+                V.append(v)
+    return [tuple(float(t) for t in v) for v in V]
+
+
+EXACT_CASES = {
+    # name: (supports per scenario, global event [el, eh] or None, event on scenario 1 or None, declaration order)
+    "supports-only": (((-1.0, 2.0), (0.5, 3.0)), None, None, "g1"),
+    "one-global-event": (((-1.0, 2.0), (0.5, 3.0)), (0.25, 1.5), None, "g1"),
+    "overlapping-events": (((-1.0, 2.0), (0.5, 3.0)), (0.25, 1.5), (1.0, 2.0), "g1"),
+    "overlapping-events-reversed": (((-1.0, 2.0), (0.5, 3.0)), (0.25, 1.5), (1.0, 2.0), "1g"),
+    "per-scenario-event-negative": (((-3.0, -0.5), (-1.0, 0.0)), None, (-0.75, -0.25), "g1"),
+}
+
+
+def exact_affine(case, adapt):
+    """Fixed scenario probabilities (1/2, 1/2), interval supports, interval expectation events (possibly overlapping),
+    objective and one E-constraint affine in z, one constraint without E.  For g affine in z the worst-case expectation
+    over the ambiguity set is  max over the conditional means (mu_0, mu_1) in the polygon M cut out by supports and
+    events of  sum_s p_s g_s(mu_s): the projection of the compiled program onto (objective, decisions) must be EXACTLY
+    the system 'objective / E-constraint at every vertex of M, plain constraint at every end point of each support'.
+    Independent of the library's dual of the lifted set."""
+    from ..spec import proj
+    from ..sym import ctx
+    sup, gev, ev1, order = EXACT_CASES[case]
+    G, h = [], []
+    for s in range(2):
+        e = [0.0, 0.0]
+        e[s] = 1.0
+        G += [e, [-v for v in e]]
+        h += [sup[s][1], -sup[s][0]]
+    if gev:
+        G += [[0.5, 0.5], [-0.5, -0.5]]
+        h += [gev[1], -gev[0]]
+    if ev1:
+        G += [[0.0, 1.0], [0.0, -1.0]]
+        h += [ev1[1], -ev1[0]]
+    V = _polygon_vertices(np.array(G), np.array(h))
+    cost = np.array([1.5, -2.0])
+
+    def setup(c):
+        m = dro.Model(2)
+        x = m.dvar(2)
+        z = m.rvar()
+        fs = m.ambiguity()
+        for s in range(2):
+            fs[s].suppset(z >= sup[s][0], z <= sup[s][1])
+        for tag in order:
+            if tag == "g" and gev:
+                fs.exptset(rsome.E(z) >= gev[0], rsome.E(z) <= gev[1])
+            if tag == "1" and ev1:
+                fs[1].exptset(rsome.E(z) >= ev1[0], rsome.E(z) <= ev1[1])
+        fs.probset(m.p == 0.5)
+        if adapt:
+            x.adapt(1)
+        m.minsup(rsome.E((x[0] - 0.5 * x[1] + 0.5) * z + cost @ x), fs)
+        m.st(rsome.E(x[1] * z - x[0]) <= 1.0)
+        m.st(x[0] * z + x[1] <= 4.0)
+        m.st(x <= 3, x >= -3)
+        F = m.do_math()
+        cols = [0]
+        for s in (range(2) if adapt else range(1)):
+            R = views.dense(m.rule_var()[s].linear)
+            cols += [next(j for j in range(R.shape[1]) if R[x.first + i, j] != 0) for i in range(2)]
+        return {"F": F, "cols": cols}
+
+    def exact(ns, _):
+        c = ctx()
+        X = [c.fresh_real(f"X{j}_") for j in range(len(ns["cols"]))]
+        t = X[0]
+        xs = [(X[1], X[2]), (X[3], X[4]) if adapt else (X[1], X[2])]
+        rows = []
+        for (a, b) in set(xs):
+            rows += [p_le(-3.0, a), p_le(a, 3.0), p_le(-3.0, b), p_le(b, 3.0)]
+        for v in V:
+            obj = sum((0.5 * ((xs[s][0] - 0.5 * xs[s][1] + 0.5) * v[s] + cost[0] * xs[s][0] + cost[1] * xs[s][1]) for s in range(2)), 0.0)
+            rows.append(p_le(obj, t))
+            rows.append(p_le(sum((0.5 * (xs[s][1] * v[s] - xs[s][0]) for s in range(2)), 0.0), 1.0))
+        for s in range(2):
+            for end in sup[s]:
+                rows.append(p_le(xs[s][0] * end + xs[s][1], 4.0))
+        return p_iff(proj.exists_feas(ns["F"], ns["cols"], X), p_and(*rows))
+
+    obs, _ = check_function("rsome.dro:<model pipeline>", setup, lambda ns: None,
+                            [post("projection-onto-the-decisions-equals-the-worst-case-over-the-vertices-of-the-mean-polygon", exact)],
+                            mode="D", label=f"{case},{'event-wise' if adapt else 'static'} ({len(V)} vertices)", bounded=True, z3_ms=90000)
+    return obs
+
+
 def jobs(tier):
     seed = int(os.environ.get("VERIF_SEED", "0") or 0)
     return [{"name": "lifted-set", "kind": "lifted"}, {"name": "free-multipliers", "kind": "free"},
-            {"name": "special-cases-sampled", "kind": "special", "n": 40 if tier == "quick" else 400, "seed": seed}]
+            {"name": "special-cases-sampled", "kind": "special", "n": 40 if tier == "quick" else 400, "seed": seed}] + [
+            {"name": f"exact-{c}-{'event' if a else 'static'}", "kind": "exact", "case": c, "adapt": a} for c in EXACT_CASES for a in (False, True)]
 
 
 def run_job(job):
@@ -268,4 +369,6 @@ def run_job(job):
         return lifted_set()
     if job["kind"] == "free":
         return free_multipliers()
+    if job["kind"] == "exact":
+        return exact_affine(job["case"], job["adapt"])
     return special_cases(job["n"], job["seed"])
